@@ -321,6 +321,31 @@ fn run(defs: &[Def]) -> Result<Outcome, V> {
                 }
             }
         }
+        // inbound events TAGGED with another exchange (a sibling venue sharing asset / instrument names, or one
+        // the engine does not track at all) never translate on this link - whichever entry point they take
+        {
+            let foreign: Vec<ExchangeId> = ins.exchanges().iter().map(|k| k.value).filter(|x| *x != e_id).chain(fixtures::EXCHANGES.iter().copied().filter(|x| !ins.exchanges().iter().any(|k| k.value == *x)).take(1)).collect();
+            for other in foreign {
+                for (name, _) in own_assets.iter().take(2) {
+                    out.checks += 3;
+                    let bal = AssetBalance { asset: (*name).clone(), balance: Balance::new(Decimal::ONE, Decimal::ONE), time_exchange: fixtures::t(1) };
+                    let via_event = indexer.account_event(UnindexedAccountEvent { exchange: other, kind: AccountEventKind::BalanceSnapshot(Snapshot(bal.clone())) });
+                    let via_snapshot = indexer.snapshot(UnindexedAccountSnapshot { exchange: other, balances: vec![bal.clone()], instruments: vec![] });
+                    let via_snapshot_event = indexer.account_event(UnindexedAccountEvent { exchange: other, kind: AccountEventKind::Snapshot(UnindexedAccountSnapshot { exchange: other, balances: vec![bal], instruments: vec![] }) });
+                    if via_event.is_ok() || via_snapshot.is_ok() || via_snapshot_event.is_ok() {
+                        return Err(("event_of_another_exchange_translated", format!("indexer of {e_id}: a balance of {name} tagged {other} translates: balance event ok={}, bare account snapshot ok={}, snapshot event ok={}", via_event.is_ok(), via_snapshot.is_ok(), via_snapshot_event.is_ok())));
+                    }
+                    out.cells.push("inbound_event_tagged_with_another_exchange");
+                }
+                for (name, _) in own_names.iter().take(2) {
+                    out.checks += 1;
+                    let ukey = OrderKey { exchange: other, instrument: (*name).clone(), strategy: StrategyId::new("s"), cid: ClientOrderId::new("c") };
+                    if indexer.order_key(ukey).is_ok() {
+                        return Err(("event_of_another_exchange_translated", format!("indexer of {e_id}: an order key naming {name} on {other} translates")));
+                    }
+                }
+            }
+        }
         // error payloads and cancel responses that NAME an instrument / asset are indexed the same way
         for (name, idx) in &own_names {
             out.checks += 2;
@@ -614,6 +639,7 @@ fn main() {
             "execution_manager_round_trip",
             "duplicate_definition_in_input",
             "names_differing_only_in_case_on_one_exchange",
+            "inbound_event_tagged_with_another_exchange",
             "builder:request_reached_own_client",
             "builder:linked_exchange_after_an_unlinked_one",
             "builder:exchange_without_link_routes_nowhere",
